@@ -21,6 +21,9 @@ theorem Code.nodes_length (c : Code) : c.nodes.length = c.len := by
   | seq a b iha ihb => simp [Code.nodes, Code.flat, Code.len] at *; omega
   | fwd j body ih => simp [Code.nodes, Code.flat, Code.len] at *; omega
   | ifElse j a b iha ihb => simp [Code.nodes, Code.flat, Code.len] at *; omega
+  | loop j pre body iha ihb => simp [Code.nodes, Code.flat, Code.len] at *; omega
+  | forever body ih => simp [Code.nodes, Code.flat, Code.len] at *; omega
+  | doLoop j body ih => simp [Code.nodes, Code.flat, Code.len] at *; omega
 
 theorem Code.nodes_seq (a b : Code) : (Code.seq a b).nodes = a.nodes ++ b.nodes := by
   simp [Code.nodes, Code.flat]
@@ -31,6 +34,17 @@ theorem Code.nodes_fwd (j : JKind) (body : Code) :
 
 theorem Code.nodes_ifElse (j : JKind) (a b : Code) :
     (Code.ifElse j a b).nodes = j.node (a.len + 2) :: (a.nodes ++ jumpNode (b.len + 1) :: b.nodes) := by
+  simp [Code.nodes, Code.flat]
+
+theorem Code.nodes_loop (j : JKind) (pre body : Code) :
+    (Code.loop j pre body).nodes =
+      pre.nodes ++ (j.node (body.len + 2) :: (body.nodes ++ [jumpBackNode (pre.len + 1 + body.len)])) := by
+  simp [Code.nodes, Code.flat]
+
+theorem Code.nodes_forever (body : Code) : (Code.forever body).nodes = body.nodes ++ [jumpBackNode body.len] := by
+  simp [Code.nodes, Code.flat]
+
+theorem Code.nodes_doLoop (j : JKind) (body : Code) : (Code.doLoop j body).nodes = body.nodes ++ [j.nodeBack body.len] := by
   simp [Code.nodes, Code.flat]
 
 /-- the fragment `ns` sits at offset `lo` of `code` -/
@@ -404,6 +418,213 @@ theorem flat_sound {c : Code} {h k : Nat} (hh : HasHt c h k) :
         exact wb.exit_h (by simp [Code.len] at hx; omega)
       · intro n hlt hc
         exact wb.need_ok n (by simp [Code.len] at hlt; omega) hc
+    · exact ⟨by simp; omega, by simp [Code.len]; omega, rfl, rfl, fun _ => rfl,
+        fun n hlt _ => by simp [Code.len] at hlt; omega⟩
+  | @loop j pre body h k1 _ g1 g2 g3 _ iha ihb =>
+    intro code lo vs fs hp t hr
+    rw [Code.nodes_loop] at hp
+    have hpp : Placed code lo pre.nodes := hp.left
+    have hp1 : Placed code (lo + pre.len)
+        (j.node (body.len + 2) :: (body.nodes ++ [jumpBackNode (pre.len + 1 + body.len)])) := by
+      have := hp.right
+      rwa [Code.nodes_length] at this
+    have hn : code[lo + pre.len]? = some ⟨j.need, [(((body.len + 2 : Nat) : Int), -(j.popJump : Int)), (1, -(j.popFall : Int))], .plain⟩ := by
+      simpa [JKind.node] using hp1.head
+    have hp2 : Placed code (lo + pre.len + 1) (body.nodes ++ [jumpBackNode (pre.len + 1 + body.len)]) := hp1.tail
+    have hpb : Placed code (lo + pre.len + 1) body.nodes := hp2.left
+    have hjb : code[lo + pre.len + 1 + body.len]? = some ⟨0, [(-((pre.len + 1 + body.len : Nat) : Int), 0)], .plain⟩ := by
+      have := hp2.right
+      rw [Code.nodes_length] at this
+      simpa [jumpBackNode] using this.head
+    have hend : lo + (Code.loop j pre body).len = lo + pre.len + 1 + body.len + 1 := by simp [Code.len]; omega
+    -- every state is a state of a run through the test, or of a run through the body, or the exit
+    have inv : RunIn code lo (lo + pre.len) ⟨lo, h, vs, fs⟩ t ∨
+        RunIn code (lo + pre.len + 1) (lo + pre.len + 1 + body.len) ⟨lo + pre.len + 1, k1 - j.popFall, vs, fs⟩ t ∨
+        t = ⟨lo + pre.len + 1 + body.len + 1, k1 - j.popJump, vs, fs⟩ := by
+      induction hr with
+      | refl => exact Or.inl RunIn.refl
+      | @step t u _ x y hu ih' =>
+        rw [hend] at y
+        rcases ih' with ha | hb | rfl
+        · have wa := iha code lo vs fs hpp t ha
+          by_cases hlt : t.pc < lo + pre.len
+          · exact Or.inl (RunIn.step ha wa.lo_le hlt hu)
+          · -- t sits on the conditional exit jump
+            have hta : t.pc = lo + pre.len := by have := wa.le_hi; omega
+            have hk : t.h = k1 := wa.exit_h hta
+            have v1 := wa.vs_eq
+            have v2 := wa.fs_eq
+            rcases succ_two (by simpa [hta] using hn) hu with he | he
+            · obtain ⟨e1, e2, e3, e4⟩ := edgeSucc_eq he
+              right; right
+              cases u
+              cases t
+              simp only at e1 e2 e3 e4 hta hk v1 v2
+              subst e3 e4 v1 v2
+              congr <;> omega
+            · obtain ⟨e1, e2, e3, e4⟩ := edgeSucc_eq he
+              right; left
+              have : u = ⟨lo + pre.len + 1, k1 - j.popFall, vs, fs⟩ := by
+                cases u
+                cases t
+                simp only at e1 e2 e3 e4 hta hk v1 v2
+                subst e3 e4 v1 v2
+                congr <;> omega
+              subst this
+              exact RunIn.refl
+        · have wb := ihb code (lo + pre.len + 1) vs fs hpb t hb
+          by_cases hlt : t.pc < lo + pre.len + 1 + body.len
+          · exact Or.inr (Or.inl (RunIn.step hb wb.lo_le hlt hu))
+          · -- t sits on the back jump: the loop head is re-entered with the entry height
+            have hta : t.pc = lo + pre.len + 1 + body.len := by have := wb.le_hi; omega
+            have hk : t.h = h := wb.exit_h hta
+            have v1 := wb.vs_eq
+            have v2 := wb.fs_eq
+            obtain ⟨e1, e2, e3, e4⟩ := edgeSucc_eq (succ_single (by simpa [hta] using hjb) hu)
+            left
+            have : u = ⟨lo, h, vs, fs⟩ := by
+              cases u
+              cases t
+              simp only at e1 e2 e3 e4 hta hk v1 v2
+              subst e3 e4 v1 v2
+              congr <;> omega
+            subst this
+            exact RunIn.refl
+        · simp only at y
+          omega
+    rcases inv with ha | hb | rfl
+    · have wa := iha code lo vs fs hpp t ha
+      refine ⟨wa.lo_le, by simp [Code.len]; have := wa.le_hi; omega, wa.vs_eq, wa.fs_eq, ?_, ?_⟩
+      · intro hx
+        have := wa.le_hi
+        simp [Code.len] at hx
+        omega
+      · intro n hlt hc
+        by_cases hin : t.pc < lo + pre.len
+        · exact wa.need_ok n hin hc
+        · have hta : t.pc = lo + pre.len := by have := wa.le_hi; omega
+          have hk : t.h = k1 := wa.exit_h hta
+          rw [hta, hn] at hc
+          cases hc
+          simp only
+          omega
+    · have wb := ihb code (lo + pre.len + 1) vs fs hpb t hb
+      refine ⟨by have := wb.lo_le; omega, by simp [Code.len]; have := wb.le_hi; omega, wb.vs_eq, wb.fs_eq, ?_, ?_⟩
+      · intro hx
+        have := wb.le_hi
+        simp [Code.len] at hx
+        omega
+      · intro n hlt hc
+        by_cases hin : t.pc < lo + pre.len + 1 + body.len
+        · exact wb.need_ok n hin hc
+        · have hta : t.pc = lo + pre.len + 1 + body.len := by have := wb.le_hi; omega
+          rw [hta, hjb] at hc
+          cases hc
+          exact Nat.zero_le _
+    · exact ⟨by simp; omega, by simp [Code.len]; omega, rfl, rfl, fun _ => rfl,
+        fun n hlt _ => by simp [Code.len] at hlt; omega⟩
+  | @forever body h k _ ih =>
+    intro code lo vs fs hp t hr
+    rw [Code.nodes_forever] at hp
+    have hpb : Placed code lo body.nodes := hp.left
+    have hjb : code[lo + body.len]? = some ⟨0, [(-((body.len : Nat) : Int), 0)], .plain⟩ := by
+      have := hp.right
+      rw [Code.nodes_length] at this
+      simpa [jumpBackNode] using this.head
+    have hend : lo + (Code.forever body).len = lo + body.len + 1 := by simp [Code.len]; omega
+    have inv : RunIn code lo (lo + body.len) ⟨lo, h, vs, fs⟩ t := by
+      induction hr with
+      | refl => exact RunIn.refl
+      | @step t u _ x y hu ih' =>
+        rw [hend] at y
+        have wb := ih code lo vs fs hpb t ih'
+        by_cases hlt : t.pc < lo + body.len
+        · exact RunIn.step ih' wb.lo_le hlt hu
+        · have hta : t.pc = lo + body.len := by have := wb.le_hi; omega
+          have hk : t.h = h := wb.exit_h hta
+          have v1 := wb.vs_eq
+          have v2 := wb.fs_eq
+          obtain ⟨e1, e2, e3, e4⟩ := edgeSucc_eq (succ_single (by simpa [hta] using hjb) hu)
+          have : u = ⟨lo, h, vs, fs⟩ := by
+            cases u
+            cases t
+            simp only at e1 e2 e3 e4 hta hk v1 v2
+            subst e3 e4 v1 v2
+            congr <;> omega
+          subst this
+          exact RunIn.refl
+    have wb := ih code lo vs fs hpb t inv
+    refine ⟨wb.lo_le, by simp [Code.len]; have := wb.le_hi; omega, wb.vs_eq, wb.fs_eq, ?_, ?_⟩
+    · intro hx
+      have := wb.le_hi
+      simp [Code.len] at hx
+      omega
+    · intro n hlt hc
+      by_cases hin : t.pc < lo + body.len
+      · exact wb.need_ok n hin hc
+      · have hta : t.pc = lo + body.len := by have := wb.le_hi; omega
+        rw [hta, hjb] at hc
+        cases hc
+        exact Nat.zero_le _
+  | @doLoop j body h k1 _ g1 g2 g3 g4 ih =>
+    intro code lo vs fs hp t hr
+    rw [Code.nodes_doLoop] at hp
+    have hpb : Placed code lo body.nodes := hp.left
+    have hj : code[lo + body.len]? = some ⟨j.need, [(-((body.len : Nat) : Int), -(j.popJump : Int)), (1, -(j.popFall : Int))], .plain⟩ := by
+      have := hp.right
+      rw [Code.nodes_length] at this
+      simpa [JKind.nodeBack] using this.head
+    have hend : lo + (Code.doLoop j body).len = lo + body.len + 1 := by simp [Code.len]; omega
+    have inv : RunIn code lo (lo + body.len) ⟨lo, h, vs, fs⟩ t ∨ t = ⟨lo + body.len + 1, k1 - j.popFall, vs, fs⟩ := by
+      induction hr with
+      | refl => exact Or.inl RunIn.refl
+      | @step t u _ x y hu ih' =>
+        rw [hend] at y
+        rcases ih' with hb | rfl
+        · have wb := ih code lo vs fs hpb t hb
+          by_cases hlt : t.pc < lo + body.len
+          · exact Or.inl (RunIn.step hb wb.lo_le hlt hu)
+          · have hta : t.pc = lo + body.len := by have := wb.le_hi; omega
+            have hk : t.h = k1 := wb.exit_h hta
+            have v1 := wb.vs_eq
+            have v2 := wb.fs_eq
+            rcases succ_two (by simpa [hta] using hj) hu with he | he
+            · -- the back edge arrives at the loop head with the entry height
+              obtain ⟨e1, e2, e3, e4⟩ := edgeSucc_eq he
+              left
+              have : u = ⟨lo, h, vs, fs⟩ := by
+                cases u
+                cases t
+                simp only at e1 e2 e3 e4 hta hk v1 v2
+                subst e3 e4 v1 v2
+                congr <;> omega
+              subst this
+              exact RunIn.refl
+            · obtain ⟨e1, e2, e3, e4⟩ := edgeSucc_eq he
+              right
+              cases u
+              cases t
+              simp only at e1 e2 e3 e4 hta hk v1 v2
+              subst e3 e4 v1 v2
+              congr <;> omega
+        · simp only at y
+          omega
+    rcases inv with hb | rfl
+    · have wb := ih code lo vs fs hpb t hb
+      refine ⟨wb.lo_le, by simp [Code.len]; have := wb.le_hi; omega, wb.vs_eq, wb.fs_eq, ?_, ?_⟩
+      · intro hx
+        have := wb.le_hi
+        simp [Code.len] at hx
+        omega
+      · intro n hlt hc
+        by_cases hin : t.pc < lo + body.len
+        · exact wb.need_ok n hin hc
+        · have hta : t.pc = lo + body.len := by have := wb.le_hi; omega
+          have hk : t.h = k1 := wb.exit_h hta
+          rw [hta, hj] at hc
+          cases hc
+          simp only
+          omega
     · exact ⟨by simp; omega, by simp [Code.len]; omega, rfl, rfl, fun _ => rfl,
         fun n hlt _ => by simp [Code.len] at hlt; omega⟩
 
